@@ -106,6 +106,25 @@ theorem slice_take {bs : Bytes} {k off len : Nat} (h : off + len ≤ k) :
   rw [List.drop_take, List.take_take]
   congr 1; omega
 
+/-- split every `if`, then close each leaf by reflexivity / index arithmetic -/
+macro "ite_omega" : tactic =>
+  `(tactic| ((repeat' split) <;> first | rfl | omega | (exfalso; omega) | (congr 1; omega) | simp_all))
+
+/-- `wr b off src` : `b` with `src` written at `off` (the result of `std::copy` into a buffer) -/
+def wr (b : Bytes) (off : Nat) (src : Bytes) : Bytes := b.take off ++ src ++ b.drop (off + src.length)
+
+theorem wr_getElem? (b src : Bytes) (off i : Nat) (h : off + src.length ≤ b.length) :
+    (wr b off src)[i]? =
+      if i < off then b[i]? else if i < off + src.length then src[i - off]? else b[i]? := by
+  unfold wr
+  simp only [List.getElem?_append, List.getElem?_take, List.getElem?_drop, List.length_append,
+    List.length_take]
+  ite_omega
+
+@[simp] theorem wr_length (b src : Bytes) (off : Nat) (h : off + src.length ≤ b.length) :
+    (wr b off src).length = b.length := by
+  unfold wr; simp; omega
+
 /-- File encoding of an ELF integer. -/
 inductive Enc | lsb | msb
   deriving DecidableEq, Repr, Inhabited
